@@ -2,9 +2,11 @@ package main
 
 import (
 	"bufio"
+	"context"
 	"errors"
 	"fmt"
 	"io"
+	"strings"
 
 	"go.einride.tech/xsens"
 )
@@ -375,7 +377,61 @@ func init() {
 			c.emitScan(append(big(3000, 3001), xsens.NewMessage(0x30, nil)...), []int{1, 1, 1, 1, 1, 1, 1, 5000}, io.EOF, false)
 		}
 		c.clientStreams()
+		c.twoClients()
 		// commands too: what the client reports as its current message stays what the stream carried
 		c.commandCases("client", c.pick(30, 300))
+	}
+}
+
+// twoClients: two clients on their own ports, each stream arriving in one read, their receives interleaved; each client
+// must deliver its own stream's frames (one case per client, judged independently)
+func (c *ctx) twoClients() {
+	for i := 0; i < c.pick(20, 200); i++ {
+		sa, fa := c.framedStream(5, true)
+		sb, fb := c.framedStream(5, true)
+		pa := &scriptedPort{r: &chunkReader{data: append([]byte(nil), sa...), final: io.EOF}}
+		pb := &scriptedPort{r: &chunkReader{data: append([]byte(nil), sb...), final: io.EOF}}
+		ca, cb := xsens.NewClient(pa), xsens.NewClient(pb)
+		na, nb := len(fa)+1, len(fb)+1
+		var oa, ob []string
+		for k := 0; k < na || k < nb; k++ {
+			if k < na {
+				var err error
+				protect(func() { err = ca.Receive(context.Background()) })
+				oa = append(oa, recvObs(ca, err))
+				var b []byte
+				protect(func() {
+					b = append([]byte(nil), ca.RawMessage()...)
+					if ca.RawMessage() == nil {
+						b = nil
+					}
+				})
+				oa = append(oa, optBytes(b))
+			}
+			if k < nb {
+				var err error
+				protect(func() { err = cb.Receive(context.Background()) })
+				ob = append(ob, recvObs(cb, err))
+				var b []byte
+				protect(func() {
+					b = append([]byte(nil), cb.RawMessage()...)
+					if cb.RawMessage() == nil {
+						b = nil
+					}
+				})
+				ob = append(ob, optBytes(b))
+			}
+		}
+		emit := func(stream []byte, n int, obs []string) {
+			var ot []string
+			for k := 0; k < n; k++ {
+				ot = append(ot, "OReceive", "ORawMsg")
+			}
+			c.emit("client", tup(nlist(stream), ilist(nil), finalTerm(io.EOF), cbool(false), "[]",
+				"["+strings.Join(ot, ";")+"]", "["+strings.Join(obs, ";")+"]"))
+		}
+		emit(sa, na, oa)
+		emit(sb, nb, ob)
+		c.count("two-clients-interleaved")
 	}
 }
